@@ -1,0 +1,20 @@
+//go:build verif
+
+// Contracts checked by /verif/govc (comment-only file; see /verif/DESIGN.md, property C26).
+// The ghost file system fsC/fsM and the specifications of the os calls are in /verif/contracts/external/os.go.spec.
+package gopfmt
+
+//@ pred crashOK(path string, target []byte, orig int) := fsC[path] == orig || fsC[path] == contentOf(target)
+//@
+//@ func writeFileWithBackup
+//@   requires fsC[path] != 0
+//@   assigns fsC, fsM
+//@   at call os.CreateTemp#1 assert [after-createtemp] crashOK(path, target, old(fsC)[path])
+//@   at call Write#1 assert [after-write] crashOK(path, target, old(fsC)[path])
+//@   at call Close#1 assert [after-close] crashOK(path, target, old(fsC)[path])
+//@   at call os.Remove assert [after-remove] crashOK(path, target, old(fsC)[path])
+//@   at call os.Chmod assert [after-chmod] crashOK(path, target, old(fsC)[path])
+//@   at call os.Rename#1 assert [after-rename] crashOK(path, target, old(fsC)[path])
+//@   ensures [content] err == nil ==> fsC[path] == contentOf(target)
+//@   ensures [mode] err == nil ==> fsM[path] == old(fsM)[path]
+//@   ensures [failure-keeps-a-complete-file] err != nil ==> crashOK(path, target, old(fsC)[path])
